@@ -20,6 +20,8 @@ RULE = ("two-run histories: 2-4 feature files on disk with passing, assertion-fa
         "file's location lines are compared with the scenarios that ended failed or in an error-class status, in run "
         "order; run 2 is fed '@rerun.txt' through collect_feature_locations + parse_features and executed: selected and "
         "executed scenarios must be exactly the listed ones; a sample goes through `python -m behave` twice. "
+        "Directed histories: a hook of a step-less scenario raises under a fail-fast environment; report directories that behave has to create; "
+        "`behave --wip` with the rerun formatter and file named in behave.ini. "
         "A case = one two-run history; non-trivial = >=1 listed and >=1 unlisted scenario; distinct by hash of "
         "(program, args, fault).")
 ASSUMPTIONS = [
